@@ -1,16 +1,19 @@
 from pyvc.runner import Prop, Fn, Lem, Ground, Native
-from props.typing_common import typing_tasks, ASSUMPTIONS
+from props.typing_common import typing_tasks, quantifier_ctor_tasks, ASSUMPTIONS
 
 PROP = Prop(
     'C03',
-    modules=['contracts.typing_c03'],
-    tasks=typing_tasks('C03'),
+    modules=['contracts.typing_c03', 'contracts.quantifier_ctor'],
+    tasks=typing_tasks('C03') + quantifier_ctor_tasks('C03'),
     bounded=[Native('bounded.native_tasks.contracts_on_constructors'), Native('bounded.typing_native.wt_outputs')],
     dep_tags=['C16', 'C05'],
     level='other',
     explanation='class invariant wt (C03 node by node) proved for the results of 8 expression constructors (generated __init__ '
                 '+ validators + post-init executed from source) and of cast() on all 11 classes, given well-typed children; '
-                'constructors of HplSet/HplFunctionCall/HplQuantifier and the predicate-level check are under ASSUMED contracts; '
+                'the quantifier constructor (validators walking iterate(): two loops under invariants, specs characterised as folds over '
+                'preorder by induction lemmas) is proved too: raises only if the types clash / hygiene is broken, and a returned '
+                'quantifier is accepted, has the stated fields and is well-typed; '
+                'constructors of HplSet/HplFunctionCall and the predicate-level check are under ASSUMED contracts; '
                 'parser and rewriting outputs: bounded (wt on every node). Open finding F16 (call arguments not narrowed).',
     assumptions=ASSUMPTIONS,
     trusted_base=['z3 5.1.0', 'cvc5 1.0.3', 'pyvc symbolic executor', 'attrs 24.3'],
